@@ -71,3 +71,9 @@ CHECKS["C11"] = dict(
     text="Fitted statistics are compared with closed forms written from the statement (exact rational, then ln); predictions must be in the arg-max set of the reference MAP score (ties: any). Non-contiguous and negative label values, empty categorical classes, skewed priors and user priors are all enumerated.",
     note="Rows with values unseen in training are compared but not judged (outside the statement); Gaussian instances with zero within-class variance are outside 'valid training set'.",
 )
+CHECKS["C04"] = dict(
+    engine="E1+E2",
+    technique="exhaustive enumeration of every point sequence of 1..5 (6) points on the 3x3 lattice and the 1-D lattice (plus scale-boundary and structured sets to n=200) x every query on the half-step grid x every k x every realised radius and its neighbours x 4 metrics x {cover tree, linear scan}, judged against brute force with the same distance object; k-NN estimators over every small labelled data set; explicit-state BFS over the real HeapSelection",
+    text="Construction order matters for the cover tree (element 0 is the root), so sequences are enumerated; lattices make exact ties and duplicates the norm. Results must be exactly k entries with true index/distance/point and the k smallest distances (ties in the library's favour); radius results must be exactly the points within r; estimators must predict a weighted plurality / mean over SOME valid k-nearest set.",
+    note="Continuous random clouds are reached only through structured families; the 'boundary-rounding' input class is reserved for misses within 32 eps of the pruning bound on non-dyadic distances.",
+)
